@@ -555,6 +555,7 @@ def c09(tier, seed):
         {'line': 'export C="p ~ q"; printenv C; export F="~/q"; printenv F; export G=a~/b; printenv G; export D=~/x; ./pargs "$D" "$HOME/x"', 'files': F, 'expect_stdout_prefix': 'p ~ q\n~/q\na~/b\n', 'area': 'vars:export-value-with-a-tilde'},
         {'line': 'read a b <<< "x   y    z  "; ./pargs "$a" "$b"; IFS=: read a b <<< x:y:z; ./pargs "$a" "$b"; IFS=: read a b c <<< "1::3:4"; ./pargs "$a" "$b" "$c"; read r <<< "  p   q "; ./pargs "$r"', 'files': F,
          'expect_stdout': _argv(['x', 'y    z']) + _argv(['x', 'y:z']) + _argv(['1', '', '3:4']) + _argv(['p   q']), 'area': 'read:the-remainder-is-the-rest-of-the-line-as-it-stands'},
+        {'line': 'P=2 ./envp P | cat; P=2 true | ./envp P; export Q=1; Q=2 true | ./envp Q; Q=5 ./envp Q | cat', 'files': dict(F, envp='#!/bin/sh\neval "echo [\\$$1]"\n'), 'expect_stdout': '[2]\n[]\n[1]\n[5]\n', 'area': 'vars:prefix-assignment:first-stage-only'},
         {'line': "A='a b'; A=; ./pargs \"[$A]\"; export B=x=y; B= printenv B; B=; printenv B; E=; C=$E; ./pargs \"$C\"", 'files': F, 'expect_stdout': _argv(['[]']) + '\n\n' + _argv(['']), 'area': 'vars:empty-value'},
         {'line': 'export B=old; read A B <<< "one two three"; printenv B; ./pargs "$A" "$B"', 'files': F, 'expect_stdout': 'two three\n' + _argv(['one', 'two three']), 'area': 'read:into-an-exported-name'},
         {'line': 'read a b c <<< "1 2 3 4"; ./pargs "$a" "$b" "$c"', 'files': F, 'expect_stdout': _argv(['1', '2', '3 4']), 'area': 'read'},
